@@ -52,7 +52,20 @@ def c05(ck):
         ck.replay_stage("bigger", "MC_C05", "MC_C05_big.cfg", tlc_workers=12, timeout=3400)
 
 
-PROPS = {"C04": c04, "C05": c05, "C18": c18}
+def c06(ck):
+    ck.rule = ("one program per (operator, ordered pair of the 32-value pool) through variables and per scalar pair as literals; "
+               "bare-value truthiness of every pool value (literal, variable, undefined); if/elsif chains of 1..4 arms x all truth "
+               "assignments x else/no else; case/when with 1..3 arms over 7 value lists x comma/or x 4-6 targets; 11 and/or shapes "
+               "x all assignments incl. undefined names; every program is non-trivial (it evaluates a condition)")
+    ck.assumptions = ["multi-key objects are not ordered or printed (iteration order is unspecified)",
+                      "floats in the pool are small dyadics"]
+    if ck.tier == "quick":
+        ck.replay_stage("all", "MC_C06", "MC_C06_quick.cfg", tlc_workers=8)
+    else:
+        ck.replay_stage("all", "MC_C06", "MC_C06_thorough.cfg", tlc_workers=12, timeout=3400)
+
+
+PROPS = {"C04": c04, "C06": c06, "C05": c05, "C18": c18}
 
 
 def replay_file(prop, path):
